@@ -44,6 +44,8 @@ pub enum Kind {
     Cw20SpenderAllowances,
     /// the allowance listings after `migrate` from the pre-0.14 layout (no per-spender index)
     Cw20Migrated { by_spender: bool },
+    /// same, but migrated at a later block at which some AtHeight / AtTime allowances have expired
+    Cw20MigratedLate { by_spender: bool },
     /// the allowance listings after a subset of mutual grants was fully revoked (and some re-granted)
     Cw20Revoked { by_spender: bool },
     /// cw1-subkeys AllAllowances; pattern of expiring entries and the block of the query
@@ -56,6 +58,8 @@ pub enum Kind {
     FixedVoters,
     FlexProposals { reverse: bool },
     FlexVotes,
+    /// ListVotes after some (false) / all (true) of the voters who cast ballots left the backing cw4-group
+    FlexVotesLeft { all: bool },
     FlexVoters,
     GroupMembers,
     StakeMembers,
@@ -129,6 +133,8 @@ pub fn listings() -> Vec<Listing> {
         l("cw20-base/AllSpenderAllowances", Cw20SpenderAllowances, "all_spender_allowances", "allowances", Some("owner"), "start_after", false, false, 0),
         l("cw20-base/AllAllowances[after-migration-from-0.13]", Cw20Migrated { by_spender: false }, "all_allowances", "allowances", Some("spender"), "start_after", false, false, 0),
         l("cw20-base/AllSpenderAllowances[after-migration-from-0.13]", Cw20Migrated { by_spender: true }, "all_spender_allowances", "allowances", Some("owner"), "start_after", false, false, 0),
+        l("cw20-base/AllAllowances[after-late-migration-with-expired-allowances]", Cw20MigratedLate { by_spender: false }, "all_allowances", "allowances", Some("spender"), "start_after", false, false, 0),
+        l("cw20-base/AllSpenderAllowances[after-late-migration-with-expired-allowances]", Cw20MigratedLate { by_spender: true }, "all_spender_allowances", "allowances", Some("owner"), "start_after", false, false, 0),
         l("cw20-base/AllAllowances[after-revocations]", Cw20Revoked { by_spender: false }, "all_allowances", "allowances", Some("spender"), "start_after", false, false, 0),
         l("cw20-base/AllSpenderAllowances[after-revocations]", Cw20Revoked { by_spender: true }, "all_spender_allowances", "allowances", Some("owner"), "start_after", false, false, 0),
         l("cw1-subkeys/AllAllowances[mix@before-expiry]", Cw1Allowances(ExpPattern::Mix, At::Before), "all_allowances", "allowances", Some("spender"), "start_after", false, true, 0),
@@ -147,6 +153,8 @@ pub fn listings() -> Vec<Listing> {
         l("cw3-flex-multisig/ListProposals", FlexProposals { reverse: false }, "list_proposals", "proposals", Some("id"), "start_after", false, false, 0),
         l("cw3-flex-multisig/ReverseProposals", FlexProposals { reverse: true }, "reverse_proposals", "proposals", Some("id"), "start_before", true, false, 0),
         l("cw3-flex-multisig/ListVotes", FlexVotes, "list_votes", "votes", Some("voter"), "start_after", false, false, 0),
+        l("cw3-flex-multisig/ListVotes[some-voters-left-the-group]", FlexVotesLeft { all: false }, "list_votes", "votes", Some("voter"), "start_after", false, false, 0),
+        l("cw3-flex-multisig/ListVotes[all-voters-left-the-group]", FlexVotesLeft { all: true }, "list_votes", "votes", Some("voter"), "start_after", false, false, 0),
         l("cw3-flex-multisig/ListVoters", FlexVoters, "list_voters", "voters", Some("addr"), "start_after", false, false, 0),
         l("cw4-group/ListMembers", GroupMembers, "list_members", "members", Some("addr"), "start_after", false, false, 0),
         l("cw4-stake/ListMembers", StakeMembers, "list_members", "members", Some("addr"), "start_after", false, false, 0),
@@ -344,15 +352,17 @@ impl Listing {
             Kind::Cw20AccountsEmptied => cw20_accounts_emptied(n),
             Kind::Cw20OwnerAllowances => cw20_owner_allowances(n),
             Kind::Cw20SpenderAllowances => cw20_spender_allowances(n),
-            Kind::Cw20Migrated { by_spender } => cw20_migrated(n, by_spender),
+            Kind::Cw20Migrated { by_spender } => cw20_migrated(n, by_spender, false),
+            Kind::Cw20MigratedLate { by_spender } => cw20_migrated(n, by_spender, true),
             Kind::Cw20Revoked { by_spender } => cw20_revoked(n, by_spender),
             Kind::Cw1Allowances(p, at) => cw1_allowances(n, p, at),
             Kind::Cw1Permissions => cw1_permissions(n, false),
             Kind::Cw1PermissionsAdmins => cw1_permissions(n, true),
             Kind::FixedProposals { reverse } => proposals(n, false, reverse),
             Kind::FlexProposals { reverse } => proposals(n, true, reverse),
-            Kind::FixedVotes => votes(n, false),
-            Kind::FlexVotes => votes(n, true),
+            Kind::FixedVotes => votes(n, false, None),
+            Kind::FlexVotes => votes(n, true, None),
+            Kind::FlexVotesLeft { all } => votes(n, true, Some(all)),
             Kind::FixedVoters => fixed_voters(n),
             Kind::FlexVoters => flex_voters(n),
             Kind::GroupMembers => group_members(n),
@@ -455,6 +465,15 @@ fn cw20_accounts_emptied(n: usize) -> Result<Built, String> {
     Ok(built)
 }
 
+/// expiries a few blocks / seconds after the start block (H0, T0)
+fn cw20_near_expiry(i: usize) -> Value {
+    match i % 3 {
+        0 => Value::Null,
+        1 => json!({"at_height": H0 + 3}),
+        _ => json!({"at_time": nanos(T0 + 20)}),
+    }
+}
+
 fn cw20_expiry(i: usize) -> Value {
     match i % 3 {
         0 => Value::Null,
@@ -545,7 +564,10 @@ fn wipe_namespace(w: &mut World, contract: &str, ns: &str) -> usize {
 /// each grant to the same seven spenders, the listed one sorting last within each owner's group
 /// (AllSpenderAllowances{spender} has n items), so that owners with several spenders lie across
 /// every multiple of 30 in the (owner, spender) key order.
-fn cw20_migrated(n: usize, by_spender: bool) -> Result<Built, String> {
+fn cw20_migrated(n: usize, by_spender: bool, late: bool) -> Result<Built, String> {
+    // late: expiries shortly after the grants; the migration runs after them (the cw20 listings and
+    // the Allowance point query show an allowance whether expired or not)
+    let cw20_expiry = |i: usize| if late { cw20_near_expiry(i) } else { cw20_expiry(i) };
     let mut b = B::new();
     let c = a("contract-cw20");
     let owner = a("owner");
@@ -566,6 +588,9 @@ fn cw20_migrated(n: usize, by_spender: bool) -> Result<Built, String> {
                 json!({"increase_allowance": {"spender": s, "amount": (100 * k + i + 1).to_string(), "expires": cw20_expiry(i + k)}}),
             )?;
         }
+    }
+    if late {
+        b.w.advance(10, 60);
     }
     // back to the layout written by cw20-base < 0.14: no per-spender index, old cw2 version
     let wiped = wipe_namespace(&mut b.w, &c, "allowance_spender");
@@ -1005,7 +1030,7 @@ fn proposals(n: usize, flex: bool, reverse: bool) -> Result<Built, String> {
 }
 
 /// n ballots on one proposal, with ballots on the neighbouring proposals as noise
-fn votes(n: usize, flex: bool) -> Result<Built, String> {
+fn votes(n: usize, flex: bool, left: Option<bool>) -> Result<Built, String> {
     let mut b = B::new();
     let pp = a("proposer");
     // the target proposal gets the proposer's ballot plus n-1 others; at least 3 others exist for noise
@@ -1038,6 +1063,29 @@ fn votes(n: usize, flex: bool) -> Result<Built, String> {
     }
     b.w.advance(1, 5);
     known.sort();
+    // ballots outlive membership: voters who cast a ballot leave the group (or are re-weighted to 0)
+    if let Some(all) = left {
+        let k = known.len();
+        let (gone, zero): (Vec<usize>, Vec<usize>) = if all {
+            ((0..k).collect(), vec![])
+        } else {
+            let gone = if k == 1 { vec![0] } else { emptied_positions(k) };
+            let zero = shifted_positions(k).into_iter().filter(|p| !gone.contains(p)).collect();
+            (gone, zero)
+        };
+        if k > 0 {
+            let remove: Vec<String> = gone.iter().map(|p| known[*p].0.clone()).collect();
+            let add: Vec<Value> = zero.iter().map(|p| json!({"addr": known[*p].0, "weight": 0})).collect();
+            b.exec(&a("admin"), &a("contract-group"), json!({"update_members": {"remove": remove, "add": add}}))?;
+            b.w.advance(1, 5);
+            for p in &gone {
+                let r = b.point(&a("contract-group"), json!({"member": {"addr": known[*p].0, "at_height": null}}))?;
+                if !r["weight"].is_null() {
+                    return Err(machinery("member (removed)", &known[*p].0, &r));
+                }
+            }
+        }
+    }
     let mut expected = vec![];
     for (addr, weight, kind) in &known {
         let r = b.point(&c, json!({"vote": {"proposal_id": target, "voter": addr}}))?;
@@ -1116,7 +1164,10 @@ fn group_members(n: usize) -> Result<Built, String> {
         }
         expected.push((Key::S(addr.clone()), json!({"addr": addr, "weight": r["weight"]})));
     }
-    let stored = expected.iter().map(|(k, _)| k.clone()).collect();
+    // the removed member's key is a cursor too (a key returned by a page before the removal)
+    let mut stored: Vec<Key> = expected.iter().map(|(k, _)| k.clone()).collect();
+    stored.push(Key::S(a("gone")));
+    stored.sort();
     Ok(b.done(c, Map::new(), expected, stored))
 }
 
@@ -1155,7 +1206,20 @@ fn stake_members(n: usize) -> Result<Built, String> {
         }
         expected.push((Key::S(addr.clone()), json!({"addr": addr, "weight": r["weight"]})));
     }
-    let stored = expected.iter().map(|(k, _)| k.clone()).collect();
+    // a former member (bonded, then unbonded everything) and the stakers below the minimum bond are
+    // cursors too
+    let left = a("left");
+    b.w.set_balance(&left, "stake", 5);
+    b.exec_funds(&left, &c, json!({"bond": {}}), &[cosmwasm_std::coin(5, "stake")])?;
+    b.w.advance(1, 5);
+    b.exec(&left, &c, json!({"unbond": {"tokens": "5"}}))?;
+    let r = b.point(&c, json!({"member": {"addr": left, "at_height": null}}))?;
+    if !r["weight"].is_null() {
+        return Err(machinery("member (unbonded)", &left, &r));
+    }
+    let mut stored: Vec<Key> = expected.iter().map(|(k, _)| k.clone()).collect();
+    stored.extend([Key::S(left), Key::S(a("low0")), Key::S(a("low1"))]);
+    stored.sort();
     Ok(b.done(c, Map::new(), expected, stored))
 }
 
